@@ -819,6 +819,31 @@ pub fn run(r: &mut Runner) {
         race_strategy,
         run_race_case,
     );
+    let budget = r.tier.pick(3_000usize, 100_000usize);
+    r.sub_enum(
+        "reader_vs_writer_all_interleavings",
+        "50 fixed (writer, reader) pairs on one key of 3 chunks + 1 byte (chunk 7; both wrappers): writers put (larger / smaller), delete, rename from another key, multipart; readers get_ranges over two and three chunk spans (several payload fetches), full get with and without if_match naming the pre-race token, head: EVERY release order of the backend steps of the two callers (reads park before and after landing) is enumerated depth-first (cut by a budget per pair). Same oracle as reader_vs_writer_schedules. Non-trivial = backend steps of the two callers alternated",
+        false,
+        race_pairs(),
+        move |case, ctx| {
+            let mut nontrivial = false;
+            let res = vf_core::sched::dfs(budget, |ch| {
+                let mut c2 = CaseCtx::default();
+                let r = run_race_with(case, ch, &mut c2);
+                nontrivial |= c2.nontrivial;
+                r
+            });
+            ctx.nontrivial = nontrivial;
+            match res {
+                Ok((n, exhausted)) => {
+                    ctx.count("schedules", n as u64);
+                    ctx.count(if exhausted { "pairs_fully_enumerated" } else { "pairs_cut_by_budget" }, 1);
+                    Ok(())
+                }
+                Err((choices, e)) => Err(format!("{e} [choices {choices:?}]")),
+            }
+        },
+    );
     r.sub(
         "differential_64k",
         "same generator with chunk size 64 KiB included (payloads up to 192 KiB)",
@@ -884,7 +909,7 @@ pub fn race_strategy() -> impl Strategy<Value = RaceCase> {
     let reader = prop_oneof![
         6 => (range_strategy(), rc(), rc(), date_strategy(), date_strategy()).prop_map(|(range, if_match, if_none_match, modified, unmodified)| ROp2::Get { range, if_match, if_none_match, modified, unmodified }),
         1 => Just(ROp2::Head),
-        1 => prop::collection::vec((0u16..40, 1u16..60), 1..3).prop_map(|ranges| ROp2::GetRanges { ranges }),
+        3 => prop::collection::vec((0u16..24, 1u16..12), 1..5).prop_map(|ranges| ROp2::GetRanges { ranges }),
     ];
     (
         prop_oneof![Just(Kind::Meta), Just(Kind::Enc)],
@@ -1007,8 +1032,35 @@ async fn reference_answer(case: &RaceCase, after_writer: bool) -> (Seen, bool) {
 }
 
 pub fn run_race_case(case: &RaceCase, ctx: &mut CaseCtx) -> Result<(), String> {
-    install_clock(1_700_000_000_000);
     let mut ch = Chooser::from_random(case.schedule.clone());
+    run_race_with(case, &mut ch, ctx)
+}
+
+/// Fixed (writer, reader) pairs whose EVERY interleaving is enumerated: object of 3 chunks + 1 byte,
+/// readers that need several payload fetches (multi-range over two chunk spans, a range over the
+/// last partial chunk, the whole object) against writers that replace, delete or move the key.
+fn race_pairs() -> Vec<RaceCase> {
+    let mut v = vec![];
+    let readers = vec![
+        ROp2::GetRanges { ranges: vec![(0, 2), (15, 3)] },
+        ROp2::GetRanges { ranges: vec![(1, 1), (8, 2), (20, 2)] },
+        ROp2::Get { range: RangeSel::None, if_match: RCond::None, if_none_match: RCond::None, modified: DateSel::None, unmodified: DateSel::None },
+        ROp2::Get { range: RangeSel::None, if_match: RCond::V1, if_none_match: RCond::None, modified: DateSel::None, unmodified: DateSel::None },
+        ROp2::Head,
+    ];
+    let writers = vec![WOp2::Put { content: 1, size: 6 }, WOp2::Put { content: 2, size: 1 }, WOp2::Delete, WOp2::RenameFromOther, WOp2::Multipart { content: 1, parts: vec![4, 3] }];
+    for kind in [Kind::Enc, Kind::Meta] {
+        for w in &writers {
+            for r in &readers {
+                v.push(RaceCase { kind, chunk: 7, v1: (3, 6), other: (6, 5), writer: w.clone(), reader: r.clone(), schedule: vec![] });
+            }
+        }
+    }
+    v
+}
+
+pub fn run_race_with(case: &RaceCase, ch: &mut Chooser, ctx: &mut CaseCtx) -> Result<(), String> {
+    install_clock(1_700_000_000_000);
     let rt = tokio::runtime::Builder::new_current_thread().enable_time().build().unwrap();
     let local = tokio::task::LocalSet::new();
     local.block_on(&rt, async {
